@@ -275,7 +275,9 @@ double _vnacal_new_solve_calc_pvalue(vnacal_new_solve_state_t *vnssp,
      * If the result is small, we can reject the null hypothesis that
      * the data are consistent with the model.
      */
-    assert(!isnan(chisq));
+    if (!isfinite(chisq)) {	/* measurements too large or not numbers */
+	return 0.0;
+    }
     assert(chisq >= 0.0);
     return chisq_pvalue(df, chisq);
 }
